@@ -1,6 +1,7 @@
 import Mouette.Model.Proto
 import Mouette.Model.Prepare
 import Mouette.Lemmas.C02Rows
+import Mouette.Lemmas.C02Histories
 /-
 Protocol front-end for C02.
   `prep <ce> <cf> <raw|arrays> <inst|direct> <k|N> <once|twice|reprep|rewrap|rewrapinst>
@@ -51,6 +52,22 @@ structure Req where
   attrs : List AttrIn
   faces : List (List Nat)
   cells : List (List Nat)
+  -- second phase of the `append` history: switches of the second construction, appended elements
+  cfg2 : Cfg := {}
+  v2 : List (List Rat) := []
+  e2 : List (Int × Int) := []
+  f2 : List (List Nat) := []
+  c2 : List (List Nat) := []
+
+def phase2 : P (Cfg × List (List Rat) × List (Int × Int) × List (List Nat) × List (List Nat)) := do
+  expect "P"
+  let ce ← bool
+  let cf ← bool
+  expect "V"; let v ← listOf (listOf rat)
+  expect "E"; let e ← listOf (do let a ← int; let b ← int; pure (a, b))
+  expect "F"; let f ← listOf (listOf nat)
+  expect "C"; let c ← listOf (listOf nat)
+  pure (⟨ce, cf⟩, v, e, f, c)
 
 def req : P Req := do
   let ce ← bool
@@ -65,8 +82,9 @@ def req : P Req := do
   expect "A"; let attrs ← listOf attrIn
   expect "F"; let faces ← listOf (listOf nat)
   expect "C"; let cells ← listOf (listOf nat)
+  let (cfg2, v2, e2, f2, c2) ← if build = "append" then phase2 else pure (({} : Cfg), [], [], [], [])
   if (via = "raw" || via = "arrays") && (kind = "inst" || kind = "direct") then
-    pure ⟨⟨ce, cf⟩, via = "arrays", kind = "inst", k, build, kinds, verts, edges, attrs, faces, cells⟩
+    pure ⟨⟨ce, cf⟩, via = "arrays", kind = "inst", k, build, kinds, verts, edges, attrs, faces, cells, cfg2, v2, e2, f2, c2⟩
   else failure
 
 def className : Nat → String
@@ -113,6 +131,13 @@ def run (q : Req) : Except String Built := do
   | "reprep" => do let p ← prepare q.cfg b1.raw; pure ⟨b1.dim, p⟩
   | "rewrap" => direct q.cfg (rewrap b1) b1.dim
   | "rewrapinst" => instantiate q.cfg (rewrap b1) (some b1.dim)
+  | "two:0" => direct q.cfg b1.raw 0
+  | "two:1" => direct q.cfg b1.raw 1
+  | "two:2" => direct q.cfg b1.raw 2
+  | "two:3" => direct q.cfg b1.raw 3
+  | "append" => direct q.cfg2 (appendElems b1 q.v2 q.e2 q.f2 q.c2) b1.dim
+  | "saveload:obj" => instantiate q.cfg (saveLoadView true q.cfg b1) none
+  | "saveload:mesh" => instantiate q.cfg (saveLoadView false q.cfg b1) none
   | _ => .error "bad-request"
 
 /-- the raw data handed to `prepare` (before the first build), with its attributes -/
